@@ -164,6 +164,29 @@ def case_recipe(G, espec, rng, nmods, annotate=False, refs=False, rotate=True, s
             "expected": c["expected"]}
 
 
+def many_refs(r, rng):
+    """make one input of a cited recipe a well-curated file: twelve references, the cited feature inside its fragment cites a late one"""
+    xs = [x for x in [r["vector"]] + r["modules"] if x.get("refs") and any(f.get("cites") for f in x.get("feats", []))]
+    if not xs:
+        return None
+    x = rng.choice(xs)
+    x["refs"] = list(x["refs"]) + ["curated-%s-%d" % (x["id"], i) for i in range(12 - len(x["refs"]))]
+    f = [f for f in x["feats"] if f.get("cites") and f["quals"]["label"][0].startswith("cited")]
+    (f or [f2 for f2 in x["feats"] if f2.get("cites")])[-1]["cites"] = [rng.randint(10, 12)]
+    return r
+
+
+def curated_many_refs(rng, count):
+    """`count` successful assemblies in which one input carries a long reference list (two-digit citation indices)"""
+    out = []
+    for r in real_family_cases(rng, 1, 3, annotate=True, refs=True):
+        if len(out) >= count:
+            break
+        if many_refs(r, rng):
+            out.append(r)
+    return out
+
+
 def real_family_cases(rng, per_geom, maxmods, **kw):
     out = []
     for espec, G in tc.geometries():
